@@ -1068,7 +1068,7 @@ impl<'a, 'b> TryInto<AnnotationBuilder<'a>> for AnnotationCsv<'a> {
                                 ));
                             }
                             let offset: Option<Offset> = if beginoffsets.get(i).is_some() && !beginoffsets.get(i).unwrap().is_empty() {
-                                if endoffsets.get(i).is_none() && !endoffsets.get(i).unwrap().is_empty() {
+                                if endoffsets.get(i).map(|x| x.is_empty()).unwrap_or(true) {
                                     return Err(StamError::CsvError(
                                     format!(
                                         "No end offset specified for subselector #{}", i
